@@ -3,21 +3,9 @@
   `Lexer::space`, wherever the lexer looks for the next token.
 -/
 import JaqVerif.C15.Lex
+import JaqVerif.C15.Layout
 
 namespace Jaq.C15
-
-/-- the body of a comment (what follows `#`) up to and including the newline that ends it:
-lines that end in an odd number of backslashes (before an optional `\r`) continue the comment -/
-inductive CommentBody : Str → Prop
-  | last (l : Str) : '\n' ∉ l → trailingBackslashes (stripCR l) % 2 = 0 → CommentBody (l ++ ['\n'])
-  | cont (l b : Str) : '\n' ∉ l → trailingBackslashes (stripCR l) % 2 = 1 → CommentBody b →
-      CommentBody (l ++ '\n' :: b)
-
-/-- trivia: any sequence of white space characters and complete comments -/
-inductive Trivia : Str → Prop
-  | nil : Trivia []
-  | ws (c : Char) (t : Str) : isWs c = true → Trivia t → Trivia (c :: t)
-  | comment (b t : Str) : CommentBody b → Trivia t → Trivia ('#' :: b ++ t)
 
 theorem splitLine_append (l rest : Str) (h : '\n' ∉ l) : splitLine (l ++ '\n' :: rest) = (l, rest) := by
   induction l with
